@@ -2,11 +2,18 @@
 C08 — property theorems.  "A forwarding node never ends up out of pocket: hops settle or
 fail together."
 
-All theorems are about `Reachable` states of the forwarder model (Model.lean), i.e. they
-hold after ANY interleaving of peer messages, commitment-protocol messages on both
-channels, Bob's internal steps, crashes/restarts and retransmissions.
+Pair level: `Reachable` = after ANY interleaving of peer messages, commitment-protocol messages
+on both channels, Bob's internal and durable steps (forwarding decision, circuit commit,
+keystone, signature persist, circuit delete — each its own step, a crash may fall between any
+two), crash-restarts and retransmissions.  The guards of Bob's steps are what the code checks
+(forwarding-package bits, circuit map, the channel's "htlc unmodified + preimage matches"
+check); everything stated below about the htlc life cycles is DERIVED from the invariant.
+
+Global level (`Pkg.lean`): all payments with forwarding-package references; the statement
+`forwarder_balance_run` is proved for the `byIndex` variant and refuted for `byRank`.
 -/
 import LndModel.C08.Invariant
+import LndModel.C08.Pkg
 
 set_option linter.unusedSectionVars false
 set_option linter.unusedVariables false
@@ -15,6 +22,50 @@ set_option linter.unusedSimpArgs false
 namespace LndModel.C08
 variable {P Hsh : Type} [DecidableEq P] [DecidableEq Hsh] (H : P → Hsh) (hash : Hsh)
 
+/-! ### what an external observer sees: the wire trace -/
+
+/-- the wire trace a model run shows. -/
+def wireTrace (s : Pair P) : List (Ev P) → List (WEv P)
+  | [] => []
+  | e :: es => match step H hash s e with
+    | some s' => (match e.wireIn s with
+        | some w => w :: wireTrace s' es
+        | none => wireTrace s' es)
+    | none => []
+
+/-- Trace property, no model state involved: every upstream `update_fulfill(p)` is preceded by a
+downstream `update_fulfill` carrying the same `p` (`seen` = preimages seen so far), and `p`
+hashes to the payment hash. -/
+def FulfillJustified (seen : List P) : List (WEv P) → Prop
+  | [] => True
+  | .downSettle p :: ws => FulfillJustified (p :: seen) ws
+  | .upSettle p :: ws => (p ∈ seen ∧ H p = hash) ∧ FulfillJustified seen ws
+  | _ :: ws => FulfillJustified seen ws
+
+/-- what `FulfillJustified` means in terms of positions in the trace. -/
+theorem FulfillJustified.split {seen : List P} {ws pre post : List (WEv P)} {p : P}
+    (h : FulfillJustified H hash seen ws) (hs : ws = pre ++ .upSettle p :: post) :
+    (p ∈ seen ∨ WEv.downSettle p ∈ pre) ∧ H p = hash := by
+  induction pre generalizing seen ws with
+  | nil => subst hs; exact ⟨Or.inl h.1.1, h.1.2⟩
+  | cons w pre ih =>
+    subst hs
+    cases w <;> simp only [List.cons_append, FulfillJustified] at h
+    case downSettle q =>
+      rcases ih h rfl with ⟨h1 | h1, h2⟩
+      · rcases List.mem_cons.1 h1 with rfl | h1
+        · exact ⟨Or.inr (by simp), h2⟩
+        · exact ⟨Or.inl h1, h2⟩
+      · exact ⟨Or.inr (List.mem_cons_of_mem _ h1), h2⟩
+    case upSettle q =>
+      rcases ih h.2 rfl with ⟨h1 | h1, h2⟩
+      · exact ⟨Or.inl h1, h2⟩
+      · exact ⟨Or.inr (List.mem_cons_of_mem _ h1), h2⟩
+    all_goals
+      rcases ih h rfl with ⟨h1 | h1, h2⟩
+      · exact ⟨Or.inl h1, h2⟩
+      · exact ⟨Or.inr (List.mem_cons_of_mem _ h1), h2⟩
+
 /-! ### helper facts (step-local) -/
 
 /-- `known` only grows by a downstream fulfill carrying that preimage. -/
@@ -22,183 +73,252 @@ theorem step_known {s s' : Pair P} {e : Ev P} (h : step H hash s e = some s') {p
     (hp : p ∈ s'.known) : p ∈ s.known ∨ e = .downSettle p := by
   cases e <;>
     simp only [LndModel.C08.step, stepDownSettle, stepUpSigBob, stepDownSigBob, stepDownRevPeer,
-      stepRestart] at h <;> (repeat' split at h) <;> (try cases h) <;> grind
+      stepUpSignPersist, stepDropSpurious, stepRestart] at h <;> (repeat' split at h) <;> (try cases h) <;> grind
 
-/-- `sentUp` only grows by Bob sending that resolution upstream. -/
-theorem step_sentUp {s s' : Pair P} {e : Ev P} (h : step H hash s e = some s') {r : Res P}
-    (hr : r ∈ s'.sentUp) : r ∈ s.sentUp ∨ (e = .relayUp r ∧ s.mbResp = some r ∧ s.up = .locked) ∨
-      (e = .localReject ∧ r = .fail) := by
-  cases e <;>
-    simp only [LndModel.C08.step, stepDownSettle, stepUpSigBob, stepDownSigBob, stepDownRevPeer,
-      stepRestart] at h <;> (repeat' split at h) <;> (try cases h) <;> grind
-
-/-! ### settle_only_with_downstream_preimage -/
-
-/-- An `update_fulfill(id_in, p)` has been sent upstream only if a fulfill with the same `p`
-was received (and accepted) on the paired outgoing htlc, and `H p` is the payment hash. -/
-theorem settle_only_with_downstream_preimage {s : Pair P} (hr : Reachable H hash s) {p : P}
-    (h : Res.settle p ∈ s.sentUp) : p ∈ s.known ∧ H p = hash :=
-  let hI := hr.inv
-  ⟨hI.sent_settle p h, hI.k_valid p (hI.sent_settle p h)⟩
-
-/-- Run-level form: in every run from the initial state, an upstream fulfill with `p` is
-preceded by the downstream peer's `update_fulfill` carrying exactly that `p`. -/
-theorem known_from_downstream {s s' : Pair P} {es : List (Ev P)} (h : run H hash s es = some s')
-    {p : P} (hp : p ∈ s'.known) : p ∈ s.known ∨ Ev.downSettle p ∈ es := by
-  induction es generalizing s with
-  | nil => simp [run] at h; subst h; exact Or.inl hp
-  | cons e es ih =>
-    simp only [run] at h
-    split at h
-    · next s1 h1 =>
-      rcases ih h with h2 | h2
-      · rcases step_known H hash h1 h2 with h3 | h3
-        · exact Or.inl h3
-        · exact Or.inr (by simp [h3])
-      · exact Or.inr (List.mem_cons_of_mem _ h2)
-    · cases h
-
-theorem settle_only_with_downstream_preimage_run {s : Pair P} {es : List (Ev P)}
-    (h : run H hash {} es = some s) {p : P} (hs : Res.settle p ∈ s.sentUp) :
-    Ev.downSettle p ∈ es ∧ H p = hash := by
-  have hr : Reachable H hash s := run_reachable H hash Reachable.init h
-  have ⟨hk, hv⟩ := settle_only_with_downstream_preimage H hash hr hs
-  rcases known_from_downstream H hash h hk with h1 | h1
-  · simp at h1
-  · exact ⟨h1, hv⟩
-
-/-- At the moment of sending: whenever a model step shows an upstream fulfill on the wire,
-the preimage is known from downstream and hashes to the payment hash. -/
+/-- at the moment an upstream fulfill shows on the wire (first transmission or retransmission)
+its preimage was received from downstream and hashes to the payment hash. Derived from the
+invariant (`mb_settle`, `up_settle`), the step's own guard only checks the hash. -/
 theorem settle_step {s s' : Pair P} {e : Ev P} (hr : Reachable H hash s)
     (h : step H hash s e = some s') {p : P} (hw : e.wireIn s = some (.upSettle p)) :
     p ∈ s.known ∧ H p = hash := by
   have hI := hr.inv
   have hk : p ∈ s.known := by
-    cases e <;> simp only [Ev.wireIn, Ev.wire] at hw <;> (try cases hw)
+    cases e <;> simp only [Ev.wireIn] at hw <;> (try cases hw)
     · next r =>
-      cases r <;> simp only [Ev.wire] at hw <;> cases hw
+      cases r <;> simp only [Ev.wireIn] at hw <;> cases hw
       simp only [LndModel.C08.step] at h
       split at h
       · next hg => exact hI.mb_settle p hg.1
       · cases h
-    · simp only [LndModel.C08.step] at h
-      split at hw
-      · next r st hu =>
-        cases hw
-        exact hI.up_settle p (by simp [hu, Life.res?])
+    · split at hw
+      · next hd => cases hw; exact hI.up_settle p (Or.inr hd)
       · cases hw
       · cases hw
-    · split at hw <;> cases hw
   exact ⟨hk, hI.k_valid p hk⟩
+
+/-- **settle_only_with_downstream_preimage**, as a statement about wire traces: in every run of the
+model, from any reachable state whose known preimages have been seen, every upstream fulfill
+is preceded by a downstream fulfill with the same preimage, which hashes to the payment hash. -/
+theorem fulfill_justified_from {s s' : Pair P} {es : List (Ev P)} {seen : List P}
+    (hr : Reachable H hash s) (hseen : ∀ p ∈ s.known, p ∈ seen) (h : run H hash s es = some s') :
+    FulfillJustified H hash seen (wireTrace H hash s es) := by
+  induction es generalizing s seen with
+  | nil => simp [wireTrace, FulfillJustified]
+  | cons e es ih =>
+    simp only [run] at h
+    split at h
+    · next s1 h1 =>
+      have hr1 := Reachable.step e hr h1
+      simp only [wireTrace, h1]
+      split
+      · next w hw =>
+        cases w
+        case downSettle q =>
+          simp only [FulfillJustified]
+          refine ih hr1 ?_ h
+          intro p hp
+          rcases step_known H hash h1 hp with h2 | h2
+          · exact List.mem_cons_of_mem _ (hseen p h2)
+          · subst h2
+            simp only [Ev.wireIn] at hw
+            cases hw
+            simp
+        case upSettle q =>
+          simp only [FulfillJustified]
+          have hq := settle_step H hash hr h1 hw
+          refine ⟨⟨hseen q hq.1, hq.2⟩, ih hr1 ?_ h⟩
+          intro p hp
+          rcases step_known H hash h1 hp with h2 | h2
+          · exact hseen p h2
+          · subst h2; simp only [Ev.wireIn] at hw; cases hw
+        all_goals
+          simp only [FulfillJustified]
+          refine ih hr1 ?_ h
+          intro p hp
+          rcases step_known H hash h1 hp with h2 | h2
+          · exact hseen p h2
+          · subst h2; simp only [Ev.wireIn] at hw; cases hw
+      · next hw =>
+        refine ih hr1 ?_ h
+        intro p hp
+        rcases step_known H hash h1 hp with h2 | h2
+        · exact hseen p h2
+        · subst h2; simp only [Ev.wireIn] at hw; cases hw
+    · cases h
+
+theorem settle_only_with_downstream_preimage {s : Pair P} {es : List (Ev P)}
+    (h : run H hash {} es = some s) : FulfillJustified H hash [] (wireTrace H hash {} es) :=
+  fulfill_justified_from H hash Reachable.init (by simp) h
+
+/-- positional reading: an upstream fulfill at any position of the trace of any run is preceded
+by the downstream fulfill with the same preimage. -/
+theorem settle_only_with_downstream_preimage_pos {s : Pair P} {es : List (Ev P)}
+    (h : run H hash {} es = some s) {pre post : List (WEv P)} {p : P}
+    (hs : wireTrace H hash {} es = pre ++ .upSettle p :: post) :
+    WEv.downSettle p ∈ pre ∧ H p = hash := by
+  have := (settle_only_with_downstream_preimage H hash h).split H hash hs
+  rcases this with ⟨h1 | h1, h2⟩
+  · simp at h1
+  · exact ⟨h1, h2⟩
 
 /-! ### fail_only_after_downstream_gone -/
 
-/-- While an upstream fail is offered or done, the paired outgoing htlc is irrevocably removed
-by a fail, or was never committed (absent and never covered by a signature of Bob). -/
+/-- While an upstream fail is offered, signed (on the wire or only persisted) or done, the paired
+outgoing htlc is irrevocably removed by a fail, or was never committed: absent on the wire AND
+not contained in any commitment Bob persisted. -/
 theorem fail_only_after_downstream_gone {s : Pair P} (hr : Reachable H hash s)
-    (h : s.up.res? = some .fail) :
-    s.down = .removed .fail ∨ (s.down = .absent ∧ s.downCommitted = false) := by
-  have hI := hr.inv
-  rcases hI.up_fail h with h1 | h1
-  · exact Or.inr ⟨h1, by rw [hI.dcomm, h1]; rfl⟩
+    (h : s.up.res? = some .fail ∨ s.upDur = some .fail) :
+    s.down = .removed .fail ∨ (s.down = .absent ∧ s.downDur = false) := by
+  rcases hr.inv.up_fail h with h1 | h1
+  · exact Or.inr ⟨h1.1, h1.2.1⟩
   · exact Or.inl h1
 
-/-- At the moment of sending (also for the local reject and for a retransmission). -/
+/-- at the moment an upstream fail shows on the wire (local reject, relayed fail,
+retransmission). Derived: the guards only look at the forwarding-package bits, the mailbox
+and the channel's "unmodified" check. -/
 theorem fail_step {s s' : Pair P} {e : Ev P} (hr : Reachable H hash s)
     (h : step H hash s e = some s') (hw : e.wireIn s = some .upFail) :
-    s.down = .removed .fail ∨ (s.down = .absent ∧ s.downCommitted = false) := by
+    s.down = .removed .fail ∨ (s.down = .absent ∧ s.downDur = false) := by
   have hI := hr.inv
-  have hd : s.down = .absent ∨ s.down = .removed .fail := by
-    cases e <;> simp only [Ev.wireIn, Ev.wire] at hw <;> (try cases hw)
-    · simp only [LndModel.C08.step] at h
-      split at h
-      · next hg => exact Or.inl (hI.circ_absent hg.2.2).1
-      · cases h
-    · next r =>
-      cases r <;> simp only [Ev.wire] at hw <;> cases hw
-      simp only [LndModel.C08.step] at h
-      split at h
-      · next hg =>
-        rcases hI.mb_fail hg.1 with h1 | h1
-        · exact Or.inr h1
-        · exact Or.inl h1.1
-      · cases h
-    · split at hw
-      · cases hw
-      · next st hu => exact hI.up_fail (by simp [hu, Life.res?])
-      · cases hw
-    · split at hw <;> cases hw
-  rcases hd with h1 | h1
-  · exact Or.inr ⟨h1, by rw [hI.dcomm, h1]; rfl⟩
-  · exact Or.inl h1
-
-/-- An outgoing htlc that was ever covered by a signature of Bob can not be `absent` again:
-"never committed" is exactly "absent". -/
-theorem committed_iff {s : Pair P} (hr : Reachable H hash s) :
-    s.downCommitted = true ↔ (s.down ≠ .absent ∧ s.down ≠ .adding .sent) := by
-  have hI := hr.inv
-  rw [hI.dcomm]
-  rcases hd : s.down with _ | st | _ | ⟨r, st⟩ | r <;> simp [Life.committed]
-  cases st <;> simp [Life.committed]
-
-/-! ### at_most_one_resolution -/
-
-/-- Bob irrevocably decides (signs) at most one resolution per incoming htlc, and it is the
-one the htlc's life cycle shows. -/
-theorem at_most_one_resolution {s : Pair P} (hr : Reachable H hash s) :
-    s.signedUp.length ≤ 1 ∧ ∀ r ∈ s.signedUp, s.up.resolvedSigned = some r := by
-  have hI := hr.inv
-  rw [hI.signed_eq]
-  cases s.up.resolvedSigned <;> simp
-
-/-- A NEW upstream resolution message is sent only while the incoming htlc is locked in and
-unresolved; anything else on the wire is the retransmission of the one signed resolution. -/
-theorem resolution_only_when_locked {s s' : Pair P} {e : Ev P}
-    (h : step H hash s e = some s') {w : WEv P} (hw : e.wireIn s = some w)
-    (hres : (∃ p, w = .upSettle p) ∨ w = .upFail) :
-    s.up = .locked ∨ (∃ r, s.up = .removing r .signed ∧ s' = s) := by
-  cases e with
-  | localReject =>
+  cases e <;> simp only [Ev.wireIn] at hw <;> (try cases hw)
+  · next ref =>
     simp only [LndModel.C08.step] at h
     split at h
-    · next hg => exact Or.inl hg.1
+    · next hg =>
+      have := hI.circ_absent (hI.nofwd hg.2.1)
+      exact Or.inr ⟨this.1, this.2.1⟩
     · cases h
-  | relayUp r =>
+  · next r =>
+    cases r <;> simp only [Ev.wireIn] at hw <;> cases hw
     simp only [LndModel.C08.step] at h
     split at h
-    · next hg => exact Or.inl hg.2
+    · next hg =>
+      rcases hI.mb_fail hg.1 with h1 | h1
+      · exact Or.inl h1
+      · exact Or.inr ⟨h1.1, h1.2.1⟩
     · cases h
-  | resendUp =>
-    simp only [LndModel.C08.step] at h
+  · split at hw
+    · cases hw
+    · next hd => exact fail_only_after_downstream_gone H hash hr (Or.inr hd)
+    · cases hw
+
+/-- "never committed" is exactly: the add is in no persisted commitment, hence (wire view) the
+htlc is absent or its add is still unsigned. -/
+theorem never_committed_iff {s : Pair P} (hr : Reachable H hash s) (h : s.downDur = false) :
+    s.down = .absent ∨ s.down = .adding .sent := by
+  have hI := hr.inv
+  rcases hd : s.down with _ | st | _ | ⟨r, st⟩ | r
+  · exact Or.inl rfl
+  · cases st
+    · exact Or.inr rfl
+    all_goals (have := hI.ddur (by simp [hd, Life.committed]); simp [h] at this)
+  all_goals (have := hI.ddur (by simp [hd, Life.committed]); simp [h] at this)
+
+/-! ### at most one resolution; replayed responses are harmless (C07 item 1) -/
+
+/-- Bob persists at most one upstream resolution per incoming htlc: `upDur` never changes once
+set, and whatever resolution the wire shows as signed is that one. The mechanism is the
+channel-level check of `lnwallet.SettleHTLC/FailHTLC` ("htlc already has a modification"),
+modelled by `chanAccepts`. -/
+theorem at_most_one_resolution {s s' : Pair P} {e : Ev P} (hr : Reachable H hash s)
+    (h : step H hash s e = some s') {r : Res P} (hd : s.upDur = some r) :
+    s'.upDur = some r ∧ (∀ r', s'.up.resolvedSigned = some r' → r' = r) := by
+  have hI' := (Reachable.step e hr h).inv
+  have hkeep : s'.upDur = some r := by
+    cases e <;>
+      simp only [LndModel.C08.step, stepDownSettle, stepUpSigBob, stepDownSigBob, stepDownRevPeer,
+        stepUpSignPersist, stepDropSpurious, stepRestart] at h <;> (repeat' split at h) <;> (try cases h) <;>
+      grind
+  refine ⟨hkeep, fun r' h' => ?_⟩
+  have := (hI'.up_signed r' h').1
+  rw [hkeep] at this
+  exact (Option.some.inj this).symm
+
+/-- a resolution that is signed on the wire is the persisted one. -/
+theorem signed_is_persisted {s : Pair P} (hr : Reachable H hash s) {r : Res P}
+    (h : s.up.resolvedSigned = some r) : s.upDur = some r := (hr.inv.up_signed r h).1
+
+/-- **A replayed response is harmless** (de-duplication across restarts): if a response packet
+reaches the incoming link while the htlc already carries a resolution (persisted, or pending in
+memory), the channel refuses it; the only step that consumes the packet is `dropSpurious`
+(`cleanupSpuriousResponse`), which sends nothing and changes neither the htlc nor the persisted
+resolution. -/
+theorem replayed_response_harmless {s : Pair P} {r : Res P} (hm : s.mbResp = some r)
+    (hres : s.upDur ≠ none ∨ s.up ≠ .locked) :
+    step H hash s (.relayUp r) = none ∧
+    ∀ s', step H hash s .dropSpurious = some s' →
+      s'.up = s.up ∧ s'.upDur = s.upDur ∧ s'.sentUp = s.sentUp ∧ s'.down = s.down ∧ s'.mbResp = none := by
+  have hacc : chanAccepts H hash s r = false := by
+    cases r <;> simp only [chanAccepts] <;> rcases hres with h1 | h1
+    all_goals first
+      | (have : s.upDur.isNone = false := by (cases hx : s.upDur <;> simp_all)
+         simp [this])
+      | simp [h1]
+  refine ⟨by simp [LndModel.C08.step, hm, hacc], ?_⟩
+  intro s' h
+  simp only [LndModel.C08.step, stepDropSpurious, hm] at h
+  split at h <;> cases h
+  simp
+
+/-! ### forwarding discipline (derived, the guards do not mention the htlcs) -/
+
+/-- Whenever an `update_add` for the outgoing htlc shows on the wire (first time or
+retransmission), the incoming htlc is locked in and unresolved, no outgoing htlc exists on the
+wire, and the forwarding decision is durable. The step guards are `mbAdd` resp. `downDur`. -/
+theorem forward_only_locked_in_once {s s' : Pair P} {e : Ev P} (hr : Reachable H hash s)
+    (h : step H hash s e = some s') (hw : e.wireIn s = some .downAdd) :
+    s.up = .locked ∧ s.upDur = none ∧ s.down = .absent ∧ s.fwdFilter = true := by
+  have hI := hr.inv
+  cases e <;> simp only [Ev.wireIn] at hw <;> (try cases hw)
+  · simp only [LndModel.C08.step] at h
     split at h
-    · next r hu => cases h; exact Or.inr ⟨r, hu, rfl⟩
+    · next hg =>
+      have := hI.mb_add hg
+      refine ⟨this.2.2.1, this.2.2.2.1, this.2.2.2.2.1, ?_⟩
+      cases hf : s.fwdFilter
+      · have h2 := hI.nofwd hf; rw [this.1] at h2; cases h2
+      · rfl
     · cases h
-  | resendDown =>
-    simp only [Ev.wireIn] at hw
-    split at hw <;> cases hw <;> rcases hres with ⟨p, hp⟩ | hp <;> cases hp
-  | _ =>
-    simp only [Ev.wireIn, Ev.wire] at hw <;> cases hw <;> rcases hres with ⟨p, hp⟩ | hp <;> cases hp
+  · next r => cases r <;> simp only [Ev.wireIn] at hw <;> cases hw
+  · split at hw <;> cases hw
+  · simp only [LndModel.C08.step] at h
+    split at h
+    · next hg =>
+      -- persisted but unsent add after a restart
+      have hk : s.keystone = true := by
+        cases hk : s.keystone
+        · have := (hI.nokey hk).2; simp [hg.1] at this
+        · rfl
+      have hc : s.circ ≠ .absent := fun hc => by have := (hI.circ_absent hc).2.1; simp [hg.1] at this
+      have hf : s.fwdFilter = true := by
+        cases hf : s.fwdFilter
+        · exact absurd (hI.nofwd hf) hc
+        · rfl
+      have hu := hI.resend_add hg.1 hg.2
+      exact ⟨hu.1, hu.2.1, hg.2, hf⟩
+    · cases h
 
-/-! ### forwarding discipline -/
-
-/-- Bob offers the outgoing htlc only for an incoming htlc that is locked in on both
-commitments, after the forwarding decision was made durable (FwdFilter) and the circuit
-committed, and never while an outgoing htlc for the same circuit exists. -/
-theorem forward_only_locked_in_once {s s' : Pair P} (hr : Reachable H hash s)
-    (h : step H hash s .sendDownAdd = some s') :
-    s.up = .locked ∧ s.down = .absent ∧ s.fwdFilter = true ∧ s.circ = .halfOpen := by
+/-- the circuit is (re-)committed only for an incoming htlc that is still locked in and has no
+persisted resolution — although `commitCircuit` only looks at the package bits and the circuit
+map. This is what fails in the `byRank` variant. -/
+theorem commit_only_unresolved {s s' : Pair P} {ref : Ref} (hr : Reachable H hash s)
+    (h : step H hash s (.commitCircuit ref) = some s') : s.up = .locked ∧ s.upDur = none := by
+  have hI := hr.inv
   simp only [LndModel.C08.step] at h
   split at h
-  · next hg => exact ⟨hg.2.2.2, hg.2.2.1, (hr.inv.mb_add hg.1).2.2.1, hg.2.1⟩
+  · next hg =>
+    rcases hg.2.2.2 with hc | hc
+    · have h1 := (hI.circ_absent hc).2.2.2.2.2.2.2 hg.2.1
+      refine ⟨?_, h1.1⟩
+      rcases hI.decided_up hg.1 with h2 | h2
+      · exact h2
+      · exact absurd h1.2 h2
+    · have := (hI.circ_deleted hc).2
+      simp [hg.2.2.1] at this
   · cases h
 
-/-- the FwdFilter bit is durable whenever an outgoing htlc exists. -/
-theorem fwdfilter_before_forward {s : Pair P} (hr : Reachable H hash s) (h : s.down ≠ .absent) :
-    s.fwdFilter = true := hr.inv.down_live h
-
 /-- Bob never acknowledges (revoke_and_ack) a commitment that removes the outgoing htlc with
-a wrong preimage: such a fulfill never gets beyond `signed`, in particular the htlc is
-never removed by it. -/
+a wrong preimage. -/
 theorem invalid_preimage_never_accepted {s : Pair P} (hr : Reachable H hash s) {p : P} :
     (∀ st, s.down = .removing (.settle p) st → H p ≠ hash → st = .sent ∨ st = .signed) ∧
     (s.down = .removed (.settle p) → H p = hash) := by
@@ -213,81 +333,195 @@ theorem invalid_preimage_never_accepted {s : Pair P} (hr : Reachable H hash s) {
 
 /-! ### no_dangling -/
 
-/-- When queues, mailboxes and forwarding packages are drained, the incoming htlc is
-gone from the commitments and the circuit is deleted (or never existed). -/
-theorem no_dangling {s : Pair P} (hr : Reachable H hash s) (hq : Quiescent s) :
-    s.up.gone = true ∧ (s.circ = .absent ∨ s.circ = .deleted) ∧ s.mbAdd = false ∧ s.mbResp = none := by
+/-- Once the incoming htlc is gone from both commitments, nothing of the payment is left in
+Bob: the circuit is deleted (or never existed), no ClosedCircuitKey is pending, both mailboxes
+are empty and the add is acked in its forwarding package. The hypothesis is only what the
+harness observes (`ActiveHtlcs` empty, no pending update), NOT the hidden state. -/
+theorem no_dangling {s : Pair P} (hr : Reachable H hash s) (hu : s.up.gone = true) :
+    (s.circ = .absent ∨ s.circ = .deleted) ∧ s.delPending = false ∧ s.mbAdd = false ∧
+    s.mbResp = none ∧ (s.up ≠ .absent → s.addAcked = true) := by
   have hI := hr.inv
-  obtain ⟨hsu, hsd, hma, hmr, hack, hresp⟩ := hq
-  refine ⟨?_, ?_, hma, hmr⟩
-  · rcases hu : s.up with _ | st | _ | ⟨r, st⟩ | r <;> simp [hu, Life.stable, Life.gone] at hsu ⊢
-    have h1 := hI.acked_add (hack (by simp [hu]))
-    simp [hu, Life.resolvedSigned] at h1
-  · by_cases hu : s.up = .absent
-    · exact Or.inl (hI.up_early (Or.inl hu)).1
-    · exact hI.resolved_circ (hI.acked_add (hack hu))
+  rcases hup : s.up with _ | st | _ | ⟨r, st⟩ | r <;> simp [hup, Life.gone] at hu
+  · -- never offered
+    have hd : s.decided = false := by
+      cases hd : s.decided
+      · rfl
+      · rcases hI.decided_up hd with h | h <;> simp [hup, Life.res?] at h
+    have hc := hI.nofwd (hI.dec hd).1
+    have := hI.circ_absent hc
+    exact ⟨Or.inl hc, this.2.2.2.2.2.1, this.2.2.1, this.2.2.2.1, by simp⟩
+  · have hs := hI.up_signed r (by simp [hup, Life.resolvedSigned])
+    have hcirc : s.circ = .absent ∨ s.circ = .deleted := by
+      rcases hc : s.circ with _ | _ | _ | _
+      · exact Or.inl rfl
+      · have := (hI.circ_live (Or.inl hc)).2; simp [hs.1, hs.2] at this
+      · have := (hI.circ_live (Or.inr hc)).2; simp [hs.1, hs.2] at this
+      · exact Or.inr rfl
+    refine ⟨hcirc, hs.2, ?_, ?_, fun _ => hI.dur_acked (by simp [hs.1])⟩
+    · cases hm : s.mbAdd
+      · rfl
+      · have := (hI.mb_add hm).2.2.1; simp [hup] at this
+    · rcases hm : s.mbResp with _ | x
+      · rfl
+      · have := (hI.mb_circ (by simp [hm])).1
+        rcases hcirc with h | h <;> simp [h] at this
+
+/-! ### targeted progress: durable obligations are never lost across a crash -/
+
+/-- **a durable downstream response is never lost** (targeted progress): in EVERY reachable state
+in which the outgoing htlc is irrevocably removed with `r` and Bob has not yet persisted an
+upstream resolution, a crash-restart followed by Bob's own steps — replay of the forwarding
+package, hand-over, relay, signature, circuit deletion — is enabled step by step and ends with
+`r` persisted upstream, the add acked and the circuit deleted. -/
+theorem response_recoverable {s : Pair P} {r : Res P} (hr : Reachable H hash s)
+    (hd : s.down = .removed r) (hu : s.upDur = none) :
+    ∃ s', run H hash s [.restart, .refwdResp, .relayUp r, .upSignPersist, .deleteCircuit] = some s' ∧
+      s'.upDur = some r ∧ s'.circ = .deleted ∧ s'.addAcked = true ∧ s'.up = .removing r .sent ∧
+      s'.respAcked = true := by
+  have hI := hr.inv
+  obtain ⟨a1, a2, a3, a4, a5, a6, a7, a8, a9, a10, a11, a12, a13, a14, a15, a16, a17, a18, a19, a20,
+    a21, a22, a23, a24, a25, a26, a27, a28, a29, a30, a31, a32, a33, a34, a35⟩ := hI
+  rcases s with ⟨up, down, decided, fwdFilter, addAcked, circ, keystone, circRef, upDur, delPending, downDur,
+    resp, respAcked, mbAdd, mbResp, mbRef, respRef, known, sentUp, downAdds, envBad⟩
+  dsimp only at *
+  subst hd hu
+  have hk : keystone = true := by
+    cases keystone
+    · have := a8 rfl; simp at this
+    · rfl
+  have hresp : resp = some r := by simpa [Life.removedRes] using a25
+  have hra : respAcked = false := by
+    cases respAcked
+    · rfl
+    · have := a28 rfl; simp at this
+  have hcirc : circ = .pending ∨ circ = .closing := by
+    cases circ
+    · have := (a6 rfl).1; simp at this
+    · exact Or.inl rfl
+    · exact Or.inr rfl
+    · have := (a13 rfl).1; simp at this
+  have hup : up = .locked ∨ ∃ r', up = .removing r' .sent := (a11 hcirc).1
+  have hvalid : ∀ p, r = .settle p → H p = hash := fun p hp => a1 p (a27 p (by rw [hp]))
+  have hdd : downDur = true := a9 (by cases r <;> simp [Life.committed])
+  subst hk hresp hra hdd
+  clear a1 a2 a3 a4 a5 a6 a7 a8 a9 a10 a11 a12 a13 a14 a15 a16 a17 a18 a19 a20 a21 a22 a23 a24 a25 a26 a27 a28 a29 a30 a31 a32 a33 a34 a35
+  cases r with
+  | fail =>
+    rcases hcirc with rfl | rfl <;> rcases hup with rfl | ⟨r', rfl⟩ <;>
+      simp [run, LndModel.C08.step, stepRestart, stepUpSignPersist, Life.restart, Life.removedRes, chanAccepts]
+  | settle p =>
+    have hv := hvalid p rfl
+    rcases hcirc with rfl | rfl <;> rcases hup with rfl | ⟨r', rfl⟩ <;>
+      simp [run, LndModel.C08.step, stepRestart, stepUpSignPersist, Life.restart, Life.removedRes, chanAccepts, hv]
+
+/-- **a locked-in add that Bob decided to forward is never lost** (targeted progress): in EVERY
+reachable state in which the forwarding decision is durable, the add is un-acked, no upstream
+resolution is persisted and the outgoing add is in no persisted commitment, a crash-restart
+followed by Bob's own steps either offers the outgoing htlc (again) or fails the incoming one
+back and persists that — depending only on whether a half-open circuit is found on disk. -/
+theorem add_recoverable {s : Pair P} {ref : Ref} (hr : Reachable H hash s)
+    (hdec : s.decided = true) (hf : s.fwdFilter = true) (ha : s.addAcked = false)
+    (hu : s.upDur = none) (hdd : s.downDur = false) :
+    (∃ s', run H hash s [.restart, .commitCircuit ref, .sendDownAdd] = some s' ∧
+        s'.down = .adding .sent ∧ s'.up = .locked) ∨
+    (∃ s', run H hash s [.restart, .refwdFail ref, .relayUp .fail, .upSignPersist, .deleteCircuit] = some s' ∧
+        s'.upDur = some .fail ∧ s'.addAcked = true ∧ s'.circ = .deleted ∧ s'.down = .absent) := by
+  have hI := hr.inv
+  obtain ⟨a1, a2, a3, a4, a5, a6, a7, a8, a9, a10, a11, a12, a13, a14, a15, a16, a17, a18, a19, a20,
+    a21, a22, a23, a24, a25, a26, a27, a28, a29, a30, a31, a32, a33, a34, a35⟩ := hI
+  rcases s with ⟨up, down, decided, fwdFilter, addAcked, circ, keystone, circRef, upDur, delPending, downDur,
+    resp, respAcked, mbAdd, mbResp, mbRef, respRef, known, sentUp, downAdds, envBad⟩
+  dsimp only at *
+  subst hdec hf ha hu hdd
+  have hdown : down = .absent ∨ down = .adding .sent := by
+    rcases down with _ | st | _ | ⟨r, st⟩ | r
+    · exact Or.inl rfl
+    · cases st
+      · exact Or.inr rfl
+      all_goals (have := a9 (by simp [Life.committed]); simp at this)
+    all_goals (have := a9 (by simp [Life.committed]); simp at this)
+  have hup : up = .locked ∨ ∃ r', up = .removing r' .sent := by
+    rcases a22 rfl with h | h
+    · exact Or.inl h
+    · rcases up with _ | st | _ | ⟨r, st⟩ | r <;> simp [Life.res?] at h
+      · cases st
+        · exact Or.inr ⟨r, rfl⟩
+        all_goals (have := (a15 r (by simp [Life.resolvedSigned])).1; simp at this)
+      · have := (a15 r (by simp [Life.resolvedSigned])).1; simp at this
+  have hcirc : circ ≠ .deleted := fun h => by have := (a13 h).1; simp at this
+  clear a1 a2 a3 a4 a5 a6 a7 a8 a9 a10 a11 a12 a13 a14 a15 a16 a17 a18 a19 a20 a21 a22 a23 a24 a25 a26 a27 a28 a29 a30 a31 a32 a33 a34 a35
+  rcases hdown with rfl | rfl <;> rcases hup with rfl | ⟨r', rfl⟩ <;> cases circ <;>
+    simp [run, LndModel.C08.step, stepRestart, stepUpSignPersist, Life.restart, chanAccepts] at hcirc ⊢
+
+/-- a locally rejected add is failed back again after a crash (the decision is durable, the
+failure is reproduced). -/
+theorem reject_recoverable {s : Pair P} {ref : Ref} (hr : Reachable H hash s)
+    (hdec : s.decided = true) (hf : s.fwdFilter = false) (hu : s.upDur = none) :
+    ∃ s', run H hash s [.restart, .localReject ref, .upSignPersist] = some s' ∧
+      s'.upDur = some .fail ∧ s'.addAcked = true ∧ s'.circ = .absent := by
+  have hI := hr.inv
+  obtain ⟨a1, a2, a3, a4, a5, a6, a7, a8, a9, a10, a11, a12, a13, a14, a15, a16, a17, a18, a19, a20,
+    a21, a22, a23, a24, a25, a26, a27, a28, a29, a30, a31, a32, a33, a34, a35⟩ := hI
+  rcases s with ⟨up, down, decided, fwdFilter, addAcked, circ, keystone, circRef, upDur, delPending, downDur,
+    resp, respAcked, mbAdd, mbResp, mbRef, respRef, known, sentUp, downAdds, envBad⟩
+  dsimp only at *
+  subst hdec hf hu
+  have hc : circ = .absent := a7 rfl
+  subst hc
+  have hack : addAcked = false := by
+    cases addAcked
+    · rfl
+    · have := a18 rfl; simp at this
+  subst hack
+  have hup : up = .locked ∨ ∃ r', up = .removing r' .sent := by
+    rcases a22 rfl with h | h
+    · exact Or.inl h
+    · rcases up with _ | st | _ | ⟨r, st⟩ | r <;> simp [Life.res?] at h
+      · cases st
+        · exact Or.inr ⟨r, rfl⟩
+        all_goals (have := (a15 r (by simp [Life.resolvedSigned])).1; simp at this)
+      · have := (a15 r (by simp [Life.resolvedSigned])).1; simp at this
+  clear a1 a2 a3 a4 a5 a6 a7 a8 a9 a10 a11 a12 a13 a14 a15 a16 a17 a18 a19 a20 a21 a22 a23 a24 a25 a26 a27 a28 a29 a30 a31 a32 a33 a34 a35
+  rcases hup with rfl | ⟨r', rfl⟩ <;>
+    simp [run, LndModel.C08.step, stepRestart, stepUpSignPersist, Life.restart, chanAccepts]
 
 /-! ### hops settle or fail together; balances -/
 
-/-- At quiescence with no htlc left on either channel (and a downstream peer that does not
-fail an htlc it already fulfilled), the incoming htlc was settled iff the outgoing was. -/
-theorem hops_settle_together {s : Pair P} (hr : Reachable H hash s) (hq : Quiescent s)
-    (hd : s.down.gone = true) (henv : s.envBad = false) :
-    s.up.settled = s.down.settled := by
+/-- When no htlc of the payment is left on either channel (what the harness observes) and the
+downstream peer did not fail an htlc it had already fulfilled, the incoming htlc was settled iff
+the outgoing one was. No hypothesis about Bob's hidden state. -/
+theorem hops_settle_together {s : Pair P} (hr : Reachable H hash s) (hq : NoHtlcs s)
+    (henv : s.envBad = false) : s.up.settled = s.down.settled := by
   have hI := hr.inv
-  have hnd := no_dangling H hash hr hq
-  obtain ⟨hsu, hsd, hma, hmr, hack, hresp⟩ := hq
-  rcases hu : s.up with _ | st | _ | ⟨r, st⟩ | r <;> simp [hu, Life.gone] at hnd
-  · -- incoming htlc never existed: neither does the outgoing one
-    have := (hI.circ_absent (hI.up_early (Or.inl hu)).1).1
+  obtain ⟨hu, hd⟩ := hq
+  rcases hup : s.up with _ | st | _ | ⟨r, st⟩ | r <;> simp [hup, Life.gone] at hu
+  · have hdec : s.decided = false := by
+      cases hd' : s.decided
+      · rfl
+      · rcases hI.decided_up hd' with h | h <;> simp [hup, Life.res?] at h
+    have := (hI.circ_absent (hI.nofwd (hI.dec hdec).1)).1
     simp [this, Life.settled]
   · rcases hdn : s.down with _ | st | _ | ⟨r', st⟩ | r' <;> simp [hdn, Life.gone] at hd
-    · -- outgoing absent: a settle upstream would need a known preimage, hence an outgoing htlc
-      cases r with
+    · cases r with
       | fail => simp [Life.settled]
       | settle p =>
-        have hk := hI.up_settle p (by simp [hu, Life.res?])
+        have hk := hI.up_settle p (Or.inl (by simp [hup, Life.res?]))
         have := hI.known_down (by intro h; simp [h] at hk)
         simp [hdn] at this
     · cases r with
       | fail =>
-        -- upstream failed: outgoing is absent or failed
-        have := hI.up_fail (by simp [hu, Life.res?])
+        have := hI.up_fail (Or.inl (by simp [hup, Life.res?]))
         cases r' with
         | fail => simp [Life.settled]
         | settle p' => simp [hdn] at this
       | settle p =>
-        have hk := hI.up_settle p (by simp [hu, Life.res?])
+        have hk := hI.up_settle p (Or.inl (by simp [hup, Life.res?]))
         cases r' with
         | settle p' => simp [Life.settled]
         | fail =>
-          have := hI.down_fail (by simp [hdn, Life.res?])
-          rcases this with h1 | h1
+          rcases hI.down_fail (by simp [hdn, Life.res?]) with h1 | h1
           · simp [h1] at hk
           · simp [henv] at h1
-
-/-- the other direction needs the forwarding package of the outgoing channel to be drained:
-a settled outgoing htlc forces the incoming one to be settled. (Stated separately because it
-is the part that rests on the response acknowledgements.) -/
-theorem downstream_settled_forces_upstream {s : Pair P} (hr : Reachable H hash s)
-    (hq : Quiescent s) {p : P} (hd : s.down = .removed (.settle p)) :
-    ∃ p', s.up = .removed (.settle p') := by
-  have hI := hr.inv
-  obtain ⟨hsu, hsd, hma, hmr, hack, hresp⟩ := hq
-  have hr1 : s.resp ≠ none := by rw [hI.resp_eq, hd]; simp [Life.removedRes]
-  have h2 := hI.resp_acked (hresp hr1)
-  rcases hu : s.up with _ | st | _ | ⟨r, st⟩ | r <;> simp [hu, Life.resolvedSigned, Life.stable] at h2 hsu
-  cases r with
-  | settle p' => exact ⟨p', rfl⟩
-  | fail =>
-    have := hI.up_fail (by simp [hu, Life.res?])
-    simp [hd] at this
-
-section Global
-
-/-- a quiescent run state: every pair is reachable, drained, without htlcs, honest peer. -/
-def GQuiescent (g : GState P Hsh) : Prop :=
-  ∀ x ∈ g, Reachable H x.1.hash x.2 ∧ Quiescent x.2 ∧ x.2.down.gone = true ∧ x.2.envBad = false
 
 theorem pair_delta_eq_fee {prm : Params Hsh} {s : Pair P} (h : s.up.settled = s.down.settled) :
     pairDelta prm s.up s.down = pairFee prm s.up := by
@@ -295,183 +529,392 @@ theorem pair_delta_eq_fee {prm : Params Hsh} {s : Pair P} (h : s.up.settled = s.
   rw [← h]
   cases s.up.settled <;> simp
 
-/-- **forwarder_balance**: at quiescence Bob's total over both channels changed by exactly
-the fees `amt_in − amt_out` of the payments that succeeded. -/
-theorem forwarder_balance {g : GState P Hsh} (hq : GQuiescent H g) : bobDelta g = totalFees g := by
-  unfold bobDelta totalFees
-  induction g with
-  | nil => rfl
-  | cons x g ih =>
-    have hx := hq x (by simp)
-    simp only [sumInt]
-    rw [ih (fun y hy => hq y (List.mem_cons_of_mem _ hy)),
-      pair_delta_eq_fee (hops_settle_together H x.1.hash hx.1 hx.2.1 hx.2.2.1 hx.2.2.2)]
+/-! ### all payments together: forwarding packages with references -/
 
-/-- sender debits = receiver credits + Bob's fees. -/
-theorem sender_debit_eq_receiver_credit_plus_fees {g : GState P Hsh} (hq : GQuiescent H g) :
-    totalDebit g = totalCredit g + totalFees g := by
-  unfold totalDebit totalCredit totalFees
-  induction g with
-  | nil => rfl
-  | cons x g ih =>
-    have hx := hq x (by simp)
-    have h := hops_settle_together H x.1.hash hx.1 hx.2.1 hx.2.2.1 hx.2.2.2
-    simp only [sumInt]
-    rw [ih (fun y hy => hq y (List.mem_cons_of_mem _ hy))]
-    unfold senderDebit receiverCredit pairFee
-    rw [← h]
-    cases x.2.up.settled <;> simp <;> omega
+section Global
 
-/-- never out of pocket: if no payment is forwarded with `amt_out > amt_in`, Bob's total
-never decreased. -/
-theorem never_out_of_pocket {g : GState P Hsh} (hq : GQuiescent H g)
-    (hfee : ∀ x ∈ g, x.1.amtOut ≤ x.1.amtIn) : 0 ≤ bobDelta g := by
-  rw [forwarder_balance H hq]
-  unfold totalFees
-  induction g with
-  | nil => simp [sumInt]
-  | cons x g ih =>
-    simp only [sumInt]
-    have h1 := ih (fun y hy => hq y (List.mem_cons_of_mem _ hy)) (fun y hy => hfee y (List.mem_cons_of_mem _ hy))
-    have h2 : 0 ≤ pairFee x.1 x.2.up := by
-      unfold pairFee
-      have := hfee x (by simp)
-      split <;> omega
-    omega
+/-- the references carried by a pair's circuit / pending response point at the pair's own add. -/
+def RefsAre (loc : Ref) (s : Pair P) : Prop :=
+  (∀ x, s.circRef = some x → x = loc) ∧ (∀ x, s.respRef = some x → x = loc)
 
-/-- every payment of a global run is a reachable pair (channel-wide events included). -/
-theorem gstepAll_reachable {f : Nat → Option (Ev P)} :
-    ∀ {i : Nat} {g g' : GState P Hsh}, (∀ x ∈ g, Reachable H x.1.hash x.2) →
-      gstepAll H f i g = some g' → ∀ x ∈ g', Reachable H x.1.hash x.2 := by
-  intro i g
-  induction g generalizing i with
-  | nil => intro g' _ h; simp [gstepAll] at h; subst h; simp
-  | cons y g ih =>
-    intro g' hg h
-    obtain ⟨prm, s⟩ := y
-    simp only [gstepAll] at h
-    split at h
-    · simp only [Option.map_eq_some_iff] at h
-      obtain ⟨r, hr, rfl⟩ := h
-      intro x hx
-      rcases List.mem_cons.1 hx with rfl | hx
-      · exact hg _ (by simp)
-      · exact ih (fun z hz => hg z (List.mem_cons_of_mem _ hz)) hr x hx
-    · next e he =>
-      split at h
-      · next s' r hs hr =>
-        cases h
-        intro x hx
-        rcases List.mem_cons.1 hx with rfl | hx
-        · exact Reachable.step e (hg (prm, s) (by simp)) hs
-        · exact ih (fun z hz => hg z (List.mem_cons_of_mem _ hz)) hr x hx
-      · cases h
+/-- a pair step whose reference argument (if any) is the pair's own location keeps `RefsAre`. -/
+theorem RefsAre.step {loc : Ref} {s s' : Pair P} {e : Ev P} (hR : RefsAre loc s)
+    (h : step H hash s e = some s')
+    (he : ∀ r, e = .localReject r ∨ e = .commitCircuit r ∨ e = .refwdFail r → r = loc) :
+    RefsAre loc s' := by
+  obtain ⟨h1, h2⟩ := hR
+  cases e <;>
+    simp only [LndModel.C08.step, stepDownSettle, stepUpSigBob, stepDownSigBob, stepDownRevPeer,
+      stepUpSignPersist, stepDropSpurious, stepRestart] at h <;> (repeat' split at h) <;> (try cases h) <;>
+    (constructor <;> grind)
 
-theorem gstepOne_reachable {e : Ev P} :
-    ∀ {i : Nat} {g g' : GState P Hsh}, (∀ x ∈ g, Reachable H x.1.hash x.2) →
-      gstepOne H e i g = some g' → ∀ x ∈ g', Reachable H x.1.hash x.2 := by
-  intro i g
-  induction g generalizing i with
-  | nil => intro g' _ h; simp [gstepOne] at h
-  | cons y g ih =>
-    intro g' hg h
-    obtain ⟨prm, s⟩ := y
-    cases i with
-    | zero =>
-      simp only [gstepOne, Option.map_eq_some_iff] at h
+/-- the global invariant of the `byIndex` variant: every payment is a reachable pair whose
+references point at its own location, and locations are distinct. -/
+structure GInv (g : GS P Hsh) : Prop where
+  reach : ∀ j, j < g.n → Reachable H (g.prm j).hash (g.st j)
+  refs : ∀ j, j < g.n → RefsAre (g.loc j) (g.st j)
+  inj : ∀ i j, i < g.n → j < g.n → g.loc i = g.loc j → i = j
+
+theorem ackRef_self {g : GS P Hsh} {i : Nat} {s' : Pair P} (hi : i < g.n)
+    (hinj : ∀ a b, a < g.n → b < g.n → g.loc a = g.loc b → a = b) :
+    ackRef (setSt g i s') (some (g.loc i)) = setSt g i { s' with addAcked := true } := by
+  unfold ackRef setSt
+  congr 1
+  funext j
+  by_cases hj : j = i
+  · subst hj; simp [hi]
+  · simp only [hj, if_false]
+    split
+    · next h => exact absurd (hinj j i h.1 hi (Option.some.inj h.2)) hj
+    · rfl
+
+theorem GInv.setSt {g : GS P Hsh} (hG : GInv H g) {i : Nat} (hi : i < g.n) {s' : Pair P}
+    (hr : Reachable H (g.prm i).hash s') (hrefs : RefsAre (g.loc i) s') : GInv H (setSt g i s') := by
+  refine ⟨?_, ?_, hG.inj⟩
+  · intro j hj
+    simp only [LndModel.C08.setSt]
+    by_cases h : j = i
+    · subst h; simpa using hr
+    · simpa [h] using hG.reach j hj
+  · intro j hj
+    simp only [LndModel.C08.setSt]
+    by_cases h : j = i
+    · subst h; simpa using hrefs
+    · simpa [h] using hG.refs j hj
+
+/-- every step of the `byIndex` variant is, for the payment concerned, a step of the pair model
+(the ack by reference lands on the payment's own bit) and leaves the others alone. -/
+theorem GInv.stepOne {g g' : GS P Hsh} (hG : GInv H g) {i : Nat} {e : Ev P}
+    (h : gstepOne H .byIndex g i e = some g') : GInv H g' := by
+  unfold gstepOne at h
+  split at h
+  · next hi =>
+    have hr := hG.reach i hi
+    have hR := hG.refs i hi
+    simp only [refOf] at h
+    have generic : ∀ (e' : Ev P) (s' : Pair P), step H (g.prm i).hash (g.st i) e' = some s' →
+        (∀ r, e' = .localReject r ∨ e' = .commitCircuit r ∨ e' = .refwdFail r → r = g.loc i) →
+        GInv H (LndModel.C08.setSt g i s') := fun e' s' hs he =>
+      hG.setSt H hi (Reachable.step e' hr hs) (hR.step H _ hs he)
+    cases e
+    case localReject ref =>
+      simp only [Option.map_eq_some_iff] at h
       obtain ⟨s', hs, rfl⟩ := h
-      intro x hx
-      rcases List.mem_cons.1 hx with rfl | hx
-      · exact Reachable.step e (hg (prm, s) (by simp)) hs
-      · exact hg x (List.mem_cons_of_mem _ hx)
-    | succ i =>
-      simp only [gstepOne, Option.map_eq_some_iff] at h
-      obtain ⟨r, hr, rfl⟩ := h
-      intro x hx
-      rcases List.mem_cons.1 hx with rfl | hx
-      · exact hg _ (by simp)
-      · exact ih (fun z hz => hg z (List.mem_cons_of_mem _ hz)) hr x hx
+      exact generic _ s' hs (by intro r hr'; rcases hr' with h1 | h1 | h1 <;> cases h1; rfl)
+    case commitCircuit ref =>
+      simp only [Option.map_eq_some_iff] at h
+      obtain ⟨s', hs, rfl⟩ := h
+      exact generic _ s' hs (by intro r hr'; rcases hr' with h1 | h1 | h1 <;> cases h1; rfl)
+    case refwdFail ref =>
+      simp only [Option.map_eq_some_iff] at h
+      obtain ⟨s', hs, rfl⟩ := h
+      exact generic _ s' hs (by intro r hr'; rcases hr' with h1 | h1 | h1 <;> cases h1; rfl)
+    case upSignPersist =>
+      simp only [Option.map_eq_some_iff] at h
+      obtain ⟨s', hs, rfl⟩ := h
+      -- the pending resolution carries a reference, and it is the pair's own location
+      have hsome : (g.st i).respRef = some (g.loc i) := by
+        have hI := hr.inv
+        unfold stepUpSignPersist at hs
+        split at hs
+        · next r hu =>
+          split at hs
+          · next hd =>
+            have := hI.resp_ref r hu hd
+            rcases hx : (g.st i).respRef with _ | x
+            · simp [hx] at this
+            · rw [hR.2 x hx]
+          · cases hs
+        · cases hs
+      rw [hsome, ackRef_self hi hG.inj]
+      have hs' : step H (g.prm i).hash (g.st i) .upSignPersist = some { s' with addAcked := true } := by
+        simp only [LndModel.C08.step]
+        unfold stepUpSignPersist at hs ⊢
+        split at hs <;> (try cases hs)
+        split at hs <;> cases hs
+        simp_all
+      exact generic _ _ hs' (by intro r hr'; rcases hr' with h1 | h1 | h1 <;> cases h1)
+    case dropSpurious =>
+      simp only [Option.map_eq_some_iff] at h
+      obtain ⟨s', hs, rfl⟩ := h
+      have hsome : (g.st i).respRef = some (g.loc i) := by
+        unfold stepDropSpurious at hs
+        split at hs
+        · split at hs
+          · next hg =>
+            rcases hx : (g.st i).respRef with _ | x
+            · simp [hx] at hg
+            · rw [hR.2 x hx]
+          · cases hs
+        · cases hs
+      rw [hsome, ackRef_self hi hG.inj]
+      have hs' : step H (g.prm i).hash (g.st i) .dropSpurious = some { s' with addAcked := true } := by
+        simp only [LndModel.C08.step]
+        unfold stepDropSpurious at hs ⊢
+        split at hs <;> (try cases hs)
+        split at hs <;> cases hs
+        simp_all
+      exact generic _ _ hs' (by intro r hr'; rcases hr' with h1 | h1 | h1 <;> cases h1)
+    all_goals
+      simp only [Option.map_eq_some_iff] at h
+      obtain ⟨s', hs, rfl⟩ := h
+      exact generic _ s' hs (by intro r hr'; rcases hr' with h1 | h1 | h1 <;> cases h1)
+  · cases h
 
-theorem grun_reachable {g g' : GState P Hsh} {es : List (GEv P)}
-    (hg : ∀ x ∈ g, Reachable H x.1.hash x.2) (h : grun H g es = some g') :
-    ∀ x ∈ g', Reachable H x.1.hash x.2 := by
+/-- channel-wide events carry no references. -/
+def NoRefEv : Ev P → Prop
+  | .localReject _ | .commitCircuit _ | .refwdFail _ | .upSignPersist | .dropSpurious => False
+  | _ => True
+
+theorem GInv.stepAll {g g' : GS P Hsh} (hG : GInv H g) {f : Nat → Option (Ev P)}
+    (hf : ∀ j e, f j = some e → NoRefEv e) (h : gstepAll H g f = some g') : GInv H g' := by
+  unfold gstepAll at h
+  split at h
+  · next hall =>
+    cases h
+    refine ⟨?_, ?_, hG.inj⟩
+    · intro j hj
+      simp only
+      rcases hfj : f j with _ | e
+      · simpa using hG.reach j hj
+      · simp only [hj, if_true]
+        have := List.all_eq_true.1 hall j (List.mem_range.2 hj)
+        simp only [hfj] at this
+        rcases hs : step H (g.prm j).hash (g.st j) e with _ | s'
+        · simp [hs] at this
+        · simpa [hs] using Reachable.step e (hG.reach j hj) hs
+    · intro j hj
+      simp only
+      rcases hfj : f j with _ | e
+      · simpa using hG.refs j hj
+      · simp only [hj, if_true]
+        have := List.all_eq_true.1 hall j (List.mem_range.2 hj)
+        simp only [hfj] at this
+        rcases hs : step H (g.prm j).hash (g.st j) e with _ | s'
+        · simp [hs] at this
+        · have hn := hf j e hfj
+          simpa [hs] using (hG.refs j hj).step H _ hs
+            (by intro r hr'; rcases hr' with h1 | h1 | h1 <;> (subst h1; exact absurd hn (by simp [NoRefEv])))
+  · cases h
+
+/-- the events of a global run are well formed: channel-wide ones carry no references. -/
+def GEvOk : GEv P → Prop
+  | .one _ _ => True
+  | .all f => ∀ j e, f j = some e → NoRefEv e
+
+theorem GInv.run {g g' : GS P Hsh} (hG : GInv H g) {es : List (GEv P)} (hok : ∀ e ∈ es, GEvOk e)
+    (h : grun H .byIndex g es = some g') : GInv H g' := by
   induction es generalizing g with
-  | nil => simp [grun] at h; subst h; exact hg
+  | nil => simp [grun] at h; exact h ▸ hG
   | cons e es ih =>
     simp only [grun] at h
     split at h
     · next g1 h1 =>
-      refine ih ?_ h
+      refine ih ?_ (fun x hx => hok x (List.mem_cons_of_mem _ hx)) h
       cases e with
-      | one i e => exact gstepOne_reachable H hg h1
-      | all f => exact gstepAll_reachable H hg h1
+      | one i e => exact hG.stepOne H h1
+      | all f =>
+        have hf : GEvOk (.all f) := hok (.all f) (by simp)
+        exact hG.stepAll H hf h1
     · cases h
 
-/-- **forwarder_balance over all interleavings**: start with any list of payments, run ANY
-sequence of global events (payment-local ones and channel-wide commitment messages /
-restarts); if the state reached is drained, without htlcs, and the peers were consistent,
-Bob's total changed by exactly the fees of the succeeded payments, and sender debits equal
-receiver credits plus those fees. -/
-theorem forwarder_balance_run {prms : List (Params Hsh)} {es : List (GEv P)} {g : GState P Hsh}
-    (h : grun H (prms.map (fun prm => (prm, ({} : Pair P)))) es = some g)
-    (hq : ∀ x ∈ g, Quiescent x.2 ∧ x.2.down.gone = true ∧ x.2.envBad = false) :
-    bobDelta g = totalFees g ∧ totalDebit g = totalCredit g + totalFees g := by
-  have hr := grun_reachable H (g := prms.map (fun prm => (prm, ({} : Pair P)))) (by
-    intro x hx
-    simp only [List.mem_map] at hx
-    obtain ⟨prm, _, rfl⟩ := hx
-    exact Reachable.init) h
-  have hgq : GQuiescent H g := fun x hx => ⟨hr x hx, hq x hx⟩
-  exact ⟨forwarder_balance H hgq, sender_debit_eq_receiver_credit_plus_fees H hgq⟩
+theorem GInv.init [Inhabited Hsh] {l : List (Params Hsh × Ref)}
+    (hinj : ∀ i j, i < l.length → j < l.length → (l[i]?.map (·.2)) = (l[j]?.map (·.2)) → i = j) :
+    GInv H (GS.init (P := P) l) := by
+  refine ⟨fun j _ => Reachable.init, fun j _ => ⟨by simp [GS.init], by simp [GS.init]⟩, ?_⟩
+  intro i j hi hj h
+  simp only [GS.init] at hi hj h
+  apply hinj i j hi hj
+  rcases hi' : l[i]? with _ | a
+  · simp [List.getElem?_eq_none_iff] at hi'; omega
+  · rcases hj' : l[j]? with _ | b
+    · simp [List.getElem?_eq_none_iff] at hj'; omega
+    · simp only [hi', hj', Option.map_some, Option.getD_some] at h ⊢
+      rw [h]
+
+theorem sum_congr {f g : Nat → Int} {l : List Nat} (h : ∀ j ∈ l, f j = g j) : sumInt f l = sumInt g l := by
+  induction l with
+  | nil => rfl
+  | cons a l ih =>
+    simp only [sumInt]
+    rw [h a (by simp), ih (fun j hj => h j (List.mem_cons_of_mem _ hj))]
+
+/-- **forwarder_balance** for ANY global run of the fixed (`byIndex`) forwarder: start with any
+list of payments at distinct package locations, run ANY sequence of payment-local events,
+channel-wide commitment messages and restarts; if the state reached has no htlc left on any
+channel (what the harness observes) and the downstream peers were consistent, Bob's total
+changed by exactly the fees `amt_in − amt_out` of the payments that succeeded, and sender
+debits equal receiver credits plus those fees. -/
+theorem forwarder_balance_run [Inhabited Hsh] {l : List (Params Hsh × Ref)} {es : List (GEv P)}
+    {g : GS P Hsh}
+    (hinj : ∀ i j, i < l.length → j < l.length → (l[i]?.map (·.2)) = (l[j]?.map (·.2)) → i = j)
+    (hok : ∀ e ∈ es, GEvOk e)
+    (h : grun H .byIndex (GS.init l) es = some g)
+    (hq : ∀ j, j < g.n → NoHtlcs (g.st j) ∧ (g.st j).envBad = false) :
+    g.bobDelta = g.totalFees ∧ g.totalDebit = g.totalCredit + g.totalFees := by
+  have hG := (GInv.init H hinj).run H hok h
+  have hst : ∀ j ∈ List.range g.n, (g.st j).up.settled = (g.st j).down.settled := fun j hj =>
+    hops_settle_together H _ (hG.reach j (List.mem_range.1 hj)) (hq j (List.mem_range.1 hj)).1
+      (hq j (List.mem_range.1 hj)).2
+  constructor
+  · unfold GS.bobDelta GS.totalFees
+    exact sum_congr (fun j hj => pair_delta_eq_fee (hst j hj))
+  · unfold GS.totalDebit GS.totalCredit GS.totalFees
+    generalize List.range g.n = rng at hst
+    induction rng with
+    | nil => rfl
+    | cons a rng ih =>
+      simp only [sumInt]
+      rw [ih (fun j hj => hst j (List.mem_cons_of_mem _ hj))]
+      have := hst a (by simp)
+      unfold senderDebit receiverCredit pairFee
+      rw [← this]
+      cases (g.st a).up.settled <;> simp <;> omega
+
+/-- never out of pocket: if no payment asks Bob to forward more than he receives, his total
+never decreased. -/
+theorem never_out_of_pocket [Inhabited Hsh] {l : List (Params Hsh × Ref)} {es : List (GEv P)}
+    {g : GS P Hsh}
+    (hinj : ∀ i j, i < l.length → j < l.length → (l[i]?.map (·.2)) = (l[j]?.map (·.2)) → i = j)
+    (hok : ∀ e ∈ es, GEvOk e)
+    (h : grun H .byIndex (GS.init l) es = some g)
+    (hq : ∀ j, j < g.n → NoHtlcs (g.st j) ∧ (g.st j).envBad = false)
+    (hfee : ∀ j, j < g.n → (g.prm j).amtOut ≤ (g.prm j).amtIn) : 0 ≤ g.bobDelta := by
+  rw [(forwarder_balance_run H hinj hok h hq).1]
+  unfold GS.totalFees
+  have : ∀ rng : List Nat, (∀ j ∈ rng, j < g.n) → 0 ≤ sumInt (fun j => pairFee (g.prm j) (g.st j).up) rng := by
+    intro rng
+    induction rng with
+    | nil => intro _; simp [sumInt]
+    | cons a rng ih =>
+      intro hr
+      simp only [sumInt]
+      have h1 := ih (fun j hj => hr j (List.mem_cons_of_mem _ hj))
+      have h2 : 0 ≤ pairFee (g.prm a) (g.st a).up := by
+        unfold pairFee
+        have := hfee a (hr a (by simp))
+        split <;> omega
+      omega
+  exact this _ (fun j hj => List.mem_range.1 hj)
+
+/-! #### the pre-fix variant violates the same statement -/
+
+/-- symbolic instance: preimages and hashes are numbers, `H p = p + 100`. -/
+def Hx (p : Nat) : Nat := p + 100
+
+/-- X and Y sit in ONE forwarding package (height 2, indices 0 and 1). X is forwarded, failed
+back by the switch, the fail is signed (AckFilter bit 0 set). Y is forwarded, its add is
+unsigned (half-open circuit) when the node crashes. After the restart the half-open circuit
+makes CommitCircuits answer Fail; the fail is relayed, signed, the circuit deleted. Second
+crash. Y's add is un-acked in `byRank` (the ack went to (2,0) again), it is re-forwarded as a
+new circuit, Carol settles it. -/
+def shiftRun : List (GEv Nat) :=
+  let lock (i : Nat) : List (GEv Nat) :=
+    [.one i .upAdd, .one i .upSigPeer, .one i .upRevBob, .one i .upSigBob, .one i .upRevPeer]
+  let failUp (i : Nat) : List (GEv Nat) :=
+    [.one i (.relayUp .fail), .one i .upSignPersist, .one i .deleteCircuit, .one i .upSigBob,
+     .one i .upRevPeer, .one i .upSigPeer, .one i .upRevBob]
+  lock 0 ++ lock 1 ++
+  [.one 0 (.decide true), .one 1 (.decide true),
+   .one 0 (.commitCircuit (0, 0)), .one 0 .switchFail] ++ failUp 0 ++
+  [.one 1 (.commitCircuit (0, 0)), .one 1 .sendDownAdd,
+   .all (fun _ => some .restart),
+   .one 1 (.refwdFail (0, 0))] ++ failUp 1 ++
+  [.all (fun _ => some .restart),
+   -- Y's AckFilter bit is still clear in `byRank`: processRemoteAdds forwards it again
+   .one 1 (.commitCircuit (0, 0)), .one 1 .sendDownAdd, .one 1 .openKeystone, .one 1 .downSignPersist,
+   .one 1 .downSigBob, .one 1 .downRevPeer, .one 1 .downSigPeer, .one 1 .downRevBob,
+   .one 1 (.downSettle 7), .one 1 .downSigPeer, .one 1 .downRevBob, .one 1 .downSigBob, .one 1 .downRevPeer]
+
+def shiftPays : List (Params Nat × Ref) := [(⟨300, 400001, 400000⟩, (2, 0)), (⟨107, 30001, 30000⟩, (2, 1))]
+
+/-- **The pre-fix code is a different model, and its run violates `forwarder_balance_run`**:
+the `byRank` variant executes `shiftRun` completely; in the final state no htlc is left on any
+channel, no peer misbehaved, yet Bob's total is −30000 while the fees of the succeeded payments
+are 0. -/
+theorem byRank_violates_forwarder_balance :
+    ∃ g : GS Nat Nat, grun Hx .byRank (GS.init shiftPays) shiftRun = some g ∧
+      (∀ j, j < g.n → NoHtlcs (g.st j) ∧ (g.st j).envBad = false) ∧
+      g.bobDelta = -30000 ∧ g.totalFees = 0 := by
+  refine ⟨(grun Hx .byRank (GS.init shiftPays) shiftRun).getD (GS.init []), ?_, ?_, ?_, ?_⟩
+  · have : (grun Hx .byRank (GS.init shiftPays) shiftRun).isSome = true := by decide
+    rcases hx : grun Hx .byRank (GS.init shiftPays) shiftRun with _ | g
+    · simp [hx] at this
+    · rfl
+  · intro j hj
+    have hn : ((grun Hx .byRank (GS.init shiftPays) shiftRun).getD (GS.init [])).n = 2 := by decide
+    rw [hn] at hj
+    have : j = 0 ∨ j = 1 := by omega
+    rcases this with rfl | rfl <;> decide
+  · decide
+  · decide
+
+/-- the fixed variant refuses the same schedule: after the second restart Y's add is acked, the
+re-forward is not enabled. -/
+theorem byIndex_refuses_shiftRun : grun Hx .byIndex (GS.init shiftPays) shiftRun = none := by decide
 
 end Global
 
-/-! ### the monitor accepts every behaviour of the model -/
+/-! ### the monitor: completeness for the model, soundness of the settle clause -/
 
-/-- **monitor soundness** (one step): an internal step does not change what the wire shows;
-a visible step is accepted by the monitor `Obs.step`, which moves to the projection of the
-model's next state. Hence a MONITOR line of the driver means: the implementation's trace is
-not a trace of the model. -/
-theorem monitor_accepts_step {s s' : Pair P} {e : Ev P} (hI : Inv H hash s)
+/-- **monitor completeness** (one step; no false alarms on the model): an internal step does not
+change what the wire shows; a visible step is accepted by the monitor `Obs.step`, which moves
+to the projection of the model's next state. -/
+theorem monitor_complete_step {s s' : Pair P} {e : Ev P} (hI : Inv H hash s)
     (h : step H hash s e = some s') :
     match e.wireIn s with
     | none => s'.obs = s.obs
     | some w => Obs.step H hash s.obs w = .ok s'.obs := by
+  have hres := hI.resend_add
   obtain ⟨a1, a2, a3, a4, a5, a6, a7, a8, a9, a10, a11, a12, a13, a14, a15, a16, a17, a18, a19, a20,
-    a21, a22, a23, a24, a25, a26, a27⟩ := hI
-  rcases s with ⟨up, down, circ, fwdFilter, addAcked, resp, respAcked, mbAdd, mbResp, known, sentUp,
-    signedUp, downCommitted, downAdds, envBad⟩
+    a21, a22, a23, a24, a25, a26, a27, a28, a29, a30, a31, a32, a33, a34, a35⟩ := hI
+  rcases s with ⟨up, down, decided, fwdFilter, addAcked, circ, keystone, circRef, upDur, delPending, downDur,
+    resp, respAcked, mbAdd, mbResp, mbRef, respRef, known, sentUp, downAdds, envBad⟩
   dsimp only at *
   cases e with
   | relayUp r =>
-    cases r <;> simp only [LndModel.C08.step, Ev.wireIn, Ev.wire, Obs.step, Pair.obs] at h ⊢ <;>
-      split at h <;> cases h <;> grind
+    cases r <;> simp only [LndModel.C08.step, Ev.wireIn, Obs.step, Pair.obs] at h ⊢ <;>
+      split at h <;> cases h <;> grind [Life.res?, chanAccepts]
+  | localReject ref =>
+    simp only [LndModel.C08.step, Ev.wireIn, Obs.step, Pair.obs] at h ⊢
+    split at h <;> cases h; grind [Life.res?, chanAccepts]
   | resendUp =>
-    rcases up with _ | st | _ | ⟨r, st⟩ | r <;> (try cases st) <;> (try cases r) <;>
-      simp only [LndModel.C08.step, Ev.wireIn, Ev.wire, Obs.step, Pair.obs] at h ⊢ <;> (try cases h) <;> grind
+    rcases up with _ | st | _ | ⟨r, st⟩ | r <;> (try cases st) <;> rcases upDur with _ | r' <;> (try cases r') <;>
+      (try cases r) <;>
+      simp only [LndModel.C08.step, Ev.wireIn, Obs.step, Pair.obs] at h ⊢ <;> (try cases h) <;>
+      grind [Life.res?, Life.resolvedSigned]
   | resendDown =>
     rcases down with _ | st | _ | ⟨r, st⟩ | r <;> (try cases st) <;> (try cases r) <;>
-      simp only [LndModel.C08.step, Ev.wireIn, Ev.wire, Obs.step, Pair.obs] at h ⊢ <;> (try cases h) <;> grind
+      simp only [LndModel.C08.step, Ev.wireIn, Obs.step, Pair.obs] at h ⊢ <;> (try cases h) <;> grind
   | upSigBob =>
     rcases up with _ | st | _ | ⟨r, st⟩ | r <;> (try cases st) <;>
-      simp only [LndModel.C08.step, stepUpSigBob, Ev.wireIn, Ev.wire, Obs.step, Pair.obs, Life.sigR] at h ⊢ <;>
-      cases h <;> rfl
+      simp only [LndModel.C08.step, stepUpSigBob, Ev.wireIn, Obs.step, Pair.obs, Life.sigR] at h ⊢ <;>
+      (try split at h) <;> cases h <;> rfl
   | downSigBob =>
     rcases down with _ | st | _ | ⟨r, st⟩ | r <;> (try cases st) <;>
-      simp only [LndModel.C08.step, stepDownSigBob, Ev.wireIn, Ev.wire, Obs.step, Pair.obs, Life.sigO] at h ⊢ <;>
-      cases h <;> rfl
+      simp only [LndModel.C08.step, stepDownSigBob, Ev.wireIn, Obs.step, Pair.obs, Life.sigO] at h ⊢ <;>
+      (try split at h) <;> cases h <;> rfl
   | downRevPeer =>
     rcases down with _ | st | _ | ⟨r, st⟩ | r <;> (try cases st) <;>
-      simp only [LndModel.C08.step, stepDownRevPeer, Ev.wireIn, Ev.wire, Obs.step, Pair.obs, Life.revR] at h ⊢ <;>
-      (try split at h) <;> cases h <;> rfl
+      simp only [LndModel.C08.step, stepDownRevPeer, Ev.wireIn, Obs.step, Pair.obs, Life.revR] at h ⊢ <;>
+      cases h <;> rfl
   | downSettle p =>
-    simp only [LndModel.C08.step, stepDownSettle, Ev.wireIn, Ev.wire, Obs.step, Pair.obs] at h ⊢
+    simp only [LndModel.C08.step, stepDownSettle, Ev.wireIn, Obs.step, Pair.obs] at h ⊢
     (repeat' split at h) <;> cases h <;> grind
   | restart =>
-    simp only [LndModel.C08.step, stepRestart, Ev.wireIn, Ev.wire, Obs.step, Pair.obs] at h ⊢
+    simp only [LndModel.C08.step, stepRestart, Ev.wireIn, Obs.step, Pair.obs] at h ⊢
     cases h; rfl
+  | upSignPersist =>
+    simp only [LndModel.C08.step, stepUpSignPersist, Ev.wireIn, Pair.obs] at h ⊢
+    (repeat' split at h) <;> cases h <;> rfl
+  | dropSpurious =>
+    simp only [LndModel.C08.step, stepDropSpurious, Ev.wireIn, Pair.obs] at h ⊢
+    (repeat' split at h) <;> cases h <;> rfl
+  | refwdResp =>
+    simp only [LndModel.C08.step, Ev.wireIn, Pair.obs] at h ⊢
+    (repeat' split at h) <;> cases h <;> rfl
   | _ =>
-    simp only [LndModel.C08.step, Ev.wireIn, Ev.wire, Obs.step, Pair.obs] at h ⊢ <;>
+    simp only [LndModel.C08.step, Ev.wireIn, Obs.step, Pair.obs] at h ⊢ <;>
       (try split at h) <;> (try cases h) <;> grind
 
 /-- the monitor run over a list of wire events. -/
@@ -481,18 +924,10 @@ def obsRun (o : Obs P) : List (WEv P) → Except Clause (Obs P)
     | .ok o' => obsRun o' ws
     | .error c => .error c
 
-/-- the wire trace a model run shows. -/
-def wireTrace (s : Pair P) : List (Ev P) → List (WEv P)
-  | [] => []
-  | e :: es => match step H hash s e with
-    | some s' => (match e.wireIn s with
-        | some w => w :: wireTrace s' es
-        | none => wireTrace s' es)
-    | none => []
-
-/-- **monitor soundness** (runs): the wire trace of ANY run of the model from the initial
-state is accepted by the monitor, which ends in the projection of the model's final state. -/
-theorem monitor_accepts_model {s s' : Pair P} {es : List (Ev P)} (hr : Reachable H hash s)
+/-- **monitor completeness** (runs): the wire trace of ANY run of the model is accepted by the
+monitor, which ends in the projection of the model's final state. A MONITOR line of the driver
+therefore means: the implementation's trace is not a trace of the model. -/
+theorem monitor_complete_for_model {s s' : Pair P} {es : List (Ev P)} (hr : Reachable H hash s)
     (h : run H hash s es = some s') : obsRun H hash s.obs (wireTrace H hash s es) = .ok s'.obs := by
   induction es generalizing s with
   | nil => simp [run] at h; subst h; rfl
@@ -500,7 +935,7 @@ theorem monitor_accepts_model {s s' : Pair P} {es : List (Ev P)} (hr : Reachable
     simp only [run] at h
     split at h
     · next s1 h1 =>
-      have hm := monitor_accepts_step H hash hr.inv h1
+      have hm := monitor_complete_step H hash hr.inv h1
       have ih' := ih (Reachable.step e hr h1) h
       simp only [wireTrace, h1]
       split at hm
@@ -508,70 +943,137 @@ theorem monitor_accepts_model {s s' : Pair P} {es : List (Ev P)} (hr : Reachable
       · next w hw => simp only [hw, obsRun, hm]; exact ih'
     · cases h
 
-/-! ### non-vacuity: the hypotheses are satisfiable, the interesting states are reachable -/
+/-- what the monitor's state knows about the preimages seen so far. -/
+def ObsInv (seen : List P) (o : Obs P) : Prop :=
+  (∀ p ∈ o.known, p ∈ seen) ∧ (∀ p, o.up.res? = some (.settle p) → p ∈ seen ∧ H p = hash)
+
+theorem ObsInv.step {seen : List P} {o o' : Obs P} {w : WEv P} (hO : ObsInv H hash seen o)
+    (h : Obs.step H hash o w = .ok o') :
+    ObsInv H hash (match w with | .downSettle p => p :: seen | _ => seen) o' := by
+  obtain ⟨h1, h2⟩ := hO
+  rcases o with ⟨up, down, known⟩
+  cases w <;> simp only [Obs.step] at h <;> (repeat' split at h) <;> (try cases h) <;>
+    (constructor <;> simp only [] <;> intro p hp) <;>
+    first
+      | grind [Life.res?, Life.res_sigO, Life.res_sigR, Life.res_revO, Life.res_revR, Life.res_restart]
+      | (rcases up with _ | st | _ | ⟨r, st⟩ | r <;> (try cases st) <;>
+          grind [Life.res?, Life.sigO, Life.sigR, Life.revO, Life.revR, Life.restart])
+
+/-- **monitor soundness, settle clause**: any wire trace the monitor accepts — whether it comes
+from the model or from the implementation — satisfies the trace property `FulfillJustified`:
+every upstream fulfill (first transmission or retransmission) is preceded by a downstream
+fulfill with the same preimage that hashes to the payment hash. (The other clauses of
+`Obs.step` are stated on the `Life` projections themselves; for them the monitor's verdict IS
+the definition, see the notes.) -/
+theorem monitor_sound_settle {o o' : Obs P} {ws : List (WEv P)} {seen : List P}
+    (hO : ObsInv H hash seen o) (h : obsRun H hash o ws = .ok o') :
+    FulfillJustified H hash seen ws := by
+  induction ws generalizing o seen with
+  | nil => trivial
+  | cons w ws ih =>
+    simp only [obsRun] at h
+    split at h
+    · next o1 h1 =>
+      have hO1 := hO.step H hash h1
+      cases w <;> simp only [FulfillJustified] <;> simp only [] at hO1
+      case upSettle q =>
+        refine ⟨?_, ih hO1 h⟩
+        obtain ⟨ha, hb⟩ := hO
+        simp only [Obs.step] at h1
+        split at h1
+        · next hu => exact hb q (by simp [hu, Life.res?])
+        · split at h1
+          · cases h1
+          · split at h1
+            · next hk => exact ⟨ha q hk.1, hk.2⟩
+            · cases h1
+      all_goals exact ih hO1 h
+    · cases h
+
+/-- from the initial monitor state. -/
+theorem monitor_sound_settle_init {o' : Obs P} {ws : List (WEv P)}
+    (h : obsRun H hash ({} : Obs P) ws = .ok o') : FulfillJustified H hash [] ws :=
+  monitor_sound_settle H hash ⟨by simp, by simp [Life.res?]⟩ h
+
+
+/-! ### non-vacuity: the interesting states are reachable, the hypotheses satisfiable -/
 
 section Examples
 
-/-- symbolic instance: preimages and hashes are numbers, `H p = p + 100`. -/
-private def Hx (p : Nat) : Nat := p + 100
+private def lockIn : List (Ev Nat) := [.upAdd, .upSigPeer, .upRevBob, .upSigBob, .upRevPeer]
+private def forward : List (Ev Nat) :=
+  [.decide true, .commitCircuit (2, 0), .sendDownAdd, .openKeystone, .downSignPersist,
+   .downSigBob, .downRevPeer, .downSigPeer, .downRevBob]
+private def finishUp : List (Ev Nat) := [.upSigBob, .upRevPeer, .upSigPeer, .upRevBob]
+private def finishDown : List (Ev Nat) := [.downSigPeer, .downRevBob, .downSigBob, .downRevPeer]
 
 /-- a complete successful forward of payment hash 107 with preimage 7. -/
 private def okRun : List (Ev Nat) :=
-  [.upAdd, .upSigPeer, .upRevBob, .upSigBob, .upRevPeer,            -- incoming htlc locked in
-   .setFwdFilter, .commitCircuit, .sendDownAdd,                     -- forward
-   .downSigBob, .downRevPeer, .downSigPeer, .downRevBob,            -- outgoing htlc locked in
-   .downSettle 7, .relayUp (.settle 7),                             -- pipelined settle
-   .upSigBob, .upRevPeer, .upSigPeer, .upRevBob,                    -- incoming htlc removed
-   .downSigPeer, .downRevBob, .downSigBob, .downRevPeer,            -- outgoing htlc removed
-   .ackDup]
+  lockIn ++ forward ++ [.downSettle 7, .relayUp (.settle 7), .upSignPersist, .deleteCircuit] ++
+  finishUp ++ finishDown ++ [.ackDup]
 
 private def okState : Pair Nat := (run Hx 107 {} okRun).getD {}
 
 example : run Hx 107 {} okRun = some okState := by decide
-example : Quiescent okState ∧ okState.up.settled = true ∧ okState.down.settled = true ∧
-    okState.circ = .deleted ∧ okState.envBad = false ∧ okState.sentUp = [.settle 7] ∧
-    okState.down.gone = true := by decide
+example : Quiescent okState ∧ NoHtlcs okState ∧ okState.up.settled = true ∧ okState.down.settled = true ∧
+    okState.circ = .deleted ∧ okState.envBad = false ∧ okState.sentUp = [.settle 7] := by decide
+example : FulfillJustified Hx 107 [] (wireTrace Hx 107 {} okRun) :=
+  settle_only_with_downstream_preimage Hx 107 (s := okState) (by decide)
 
-/-- a wrong preimage: the fulfill is recorded but never relayed, and Bob can not revoke. -/
-private def badState : Pair Nat :=
-  (run Hx 107 {} (okRun.take 12 ++ [.downSettle 8, .downSigPeer])).getD {}
-
-example : run Hx 107 {} (okRun.take 12 ++ [.downSettle 8, .downSigPeer]) = some badState := by decide
-example : badState.known = [] ∧ (step Hx 107 badState .downRevBob).isNone = true ∧
-    (step Hx 107 badState (.relayUp (.settle 8))).isNone = true := by decide
-
-/-- crash with the outgoing add unsigned, half-open circuit failed back after the restart,
-second crash: the add is acked, nothing is forwarded again. -/
+/-- crash between the persisted signature of the upstream settle and the circuit deletion: after
+the restart the downstream peer re-sends its fulfill, the response reaches the incoming link a
+second time, the channel refuses it (`replayed_response_harmless`), `dropSpurious` cleans up,
+the persisted settle is retransmitted exactly once more, everything completes. -/
 private def crashRun : List (Ev Nat) :=
-  [.upAdd, .upSigPeer, .upRevBob, .upSigBob, .upRevPeer, .setFwdFilter, .commitCircuit, .sendDownAdd,
-   .restart, .switchFail, .relayUp .fail, .upSigBob, .upRevPeer, .upSigPeer, .restart]
+  lockIn ++ forward ++ [.downSettle 7, .relayUp (.settle 7), .upSignPersist, .restart,
+    .downSettle 7, .dropSpurious, .resendUp] ++ finishUp ++ finishDown ++ [.ackDup]
 
 private def crashState : Pair Nat := (run Hx 107 {} crashRun).getD {}
 
 example : run Hx 107 {} crashRun = some crashState := by decide
-example : crashState.addAcked = true ∧ crashState.circ = .deleted ∧ crashState.down = .absent ∧
-    (step Hx 107 crashState .reforward).isNone = true ∧
-    (step Hx 107 crashState .commitCircuit).isNone = true ∧
-    (step Hx 107 crashState .sendDownAdd).isNone = true := by decide
+example : Quiescent crashState ∧ crashState.up.settled = true ∧ crashState.down.settled = true ∧
+    crashState.sentUp = [.settle 7] ∧ crashState.upDur = some (.settle 7) := by decide
+/-- in the middle of that run the duplicate really is in the mailbox while the resolution is
+already persisted: the hypotheses of `replayed_response_harmless` are reachable. -/
+example : ∃ s, run Hx 107 {} (crashRun.take 19) = some s ∧ s.mbResp = some (.settle 7) ∧
+    s.upDur = some (.settle 7) ∧ (step Hx 107 s (.relayUp (.settle 7))).isNone = true :=
+  ⟨(run Hx 107 {} (crashRun.take 19)).getD {}, by decide, by decide, by decide, by decide⟩
 
-/-- a locally rejected payment. -/
-private def rejRun : List (Ev Nat) :=
-  [.upAdd, .upSigPeer, .upRevBob, .upSigBob, .upRevPeer, .localReject,
-   .upSigBob, .upRevPeer, .upSigPeer, .upRevBob]
+/-- crash between OpenCircuits and the signature of the outgoing add: the keystone is trimmed,
+the half-open circuit is failed back, acked, and nothing is forwarded again. -/
+private def keystoneCrash : List (Ev Nat) :=
+  lockIn ++ [.decide true, .commitCircuit (2, 0), .sendDownAdd, .openKeystone, .restart,
+    .refwdFail (2, 0), .relayUp .fail, .upSignPersist, .deleteCircuit] ++ finishUp ++ [.restart]
 
-private def rejState : Pair Nat := (run Hx 300 {} rejRun).getD {}
+private def keystoneState : Pair Nat := (run Hx 107 {} keystoneCrash).getD {}
 
-example : run Hx 300 {} rejRun = some rejState := by decide
+example : run Hx 107 {} keystoneCrash = some keystoneState := by decide
+example : keystoneState.addAcked = true ∧ keystoneState.circ = .deleted ∧ keystoneState.down = .absent ∧
+    keystoneState.keystone = false ∧ (step Hx 107 keystoneState (.commitCircuit (2, 0))).isNone = true ∧
+    (step Hx 107 keystoneState (.refwdFail (2, 0))).isNone = true ∧ NoHtlcs keystoneState := by decide
 
-/-- a quiescent global state with one succeeded and one failed payment: Bob gains the fee. -/
-example : GQuiescent Hx [((⟨107, 5000, 4000⟩ : Params Nat), okState), (⟨300, 900, 800⟩, rejState)] ∧
-    bobDelta [((⟨107, 5000, 4000⟩ : Params Nat), okState), (⟨300, 900, 800⟩, rejState)] = 1000 := by
-  refine ⟨?_, by decide⟩
-  intro x hx
-  simp only [List.mem_cons, List.not_mem_nil, or_false] at hx
-  rcases hx with rfl | rfl
-  · exact ⟨run_reachable Hx 107 Reachable.init (es := okRun) (by decide), by decide, by decide, by decide⟩
-  · exact ⟨run_reachable Hx 300 Reachable.init (es := rejRun) (by decide), by decide, by decide, by decide⟩
+/-- a wrong preimage: recorded on the wire, never relayed, and Bob can not revoke. -/
+private def badState : Pair Nat := (run Hx 107 {} (lockIn ++ forward ++ [.downSettle 8, .downSigPeer])).getD {}
+example : run Hx 107 {} (lockIn ++ forward ++ [.downSettle 8, .downSigPeer]) = some badState := by decide
+example : badState.known = [] ∧ badState.mbResp = none ∧ (step Hx 107 badState .downRevBob).isNone = true := by
+  decide
+
+/-- the hypotheses of `forwarder_balance_run` are satisfiable with a non-zero fee: the fixed
+variant runs both payments of `shiftPays` to the end (X failed back, Y settled). -/
+private def goodRun : List (GEv Nat) :=
+  (lockIn.map (GEv.one 0)) ++ (lockIn.map (GEv.one 1)) ++
+  [.one 0 (.decide true), .one 1 (.decide true), .one 0 (.commitCircuit (0, 0)), .one 0 .switchFail,
+   .one 0 (.relayUp .fail), .one 0 .upSignPersist, .one 0 .deleteCircuit] ++ (finishUp.map (GEv.one 0)) ++
+  [.all (fun _ => some .restart)] ++
+  ((([.commitCircuit (0, 0), .sendDownAdd, .openKeystone, .downSignPersist,
+     .downSigBob, .downRevPeer, .downSigPeer, .downRevBob, .downSettle 7, .relayUp (.settle 7),
+     .upSignPersist, .deleteCircuit] : List (Ev Nat)) ++ finishUp ++ finishDown).map (GEv.one 1))
+
+private def goodState : GS Nat Nat := (grun Hx .byIndex (GS.init shiftPays) goodRun).getD (GS.init [])
+
+example : (grun Hx .byIndex (GS.init shiftPays) goodRun).isSome = true := by decide
+example : goodState.n = 2 ∧ NoHtlcs (goodState.st 0) ∧ NoHtlcs (goodState.st 1) ∧
+    goodState.bobDelta = 1 ∧ goodState.totalFees = 1 ∧ (goodState.st 1).addAcked = true := by decide
 
 end Examples
 
